@@ -17,6 +17,7 @@ FILES = {
     "requests_hook": "interceptor/hooks/requests.py",
     "tornado_hook": "interceptor/hooks/tornado.py",
     "aiohttp_hook": "interceptor/hooks/aiohttp.py",
+    "helpers": "interceptor/hooks/helpers.py",
 }
 PROP = "C19"
 obs = []
@@ -826,6 +827,54 @@ def r8(mods):
                 ok = isinstance(v, ast.DictComp) and "lower()" in src(v.key) or (isinstance(v, ast.Call) and "lower" in src(v))
         check(ok, "R6", "tornado/original-headers-lower-cased", loc(tpath3, prep),
               "original_headers is a copy of the headers with lower-cased names (the filter looks the exclusion header up in lower case)")
+    # the shared FailSafe is built to count the gateway's own error marker (ProxyErrorException, raised by
+    # validate_headers on x-lunar-error); the hooks add their transport errors
+    itree2, ipath2 = mods["init"]
+    lf = find_func(itree2, "_load_fail_safe")
+    if lf is None:
+        undec("R2", "init/_load_fail_safe", rel(ipath2), "function not found")
+    else:
+        ok = False
+        for c in ast.walk(lf):
+            if isinstance(c, ast.Call) and src(c.func) == "FailSafe":
+                for kw in c.keywords:
+                    if kw.arg == "handle_on" and "ProxyErrorException" in src(kw.value):
+                        ok = True
+        check(ok, "R2", "init/fail-safe-counts-ProxyErrorException", loc(ipath2, lf),
+              "FailSafe(..., handle_on=(ProxyErrorException,)): a gateway answer marked x-lunar-error is counted and the call falls back to the provider")
+    # the gateway marks every answer it generates by itself with x-lunar-error (that header is what
+    # validate_headers counts): read from the directives of haproxy.cfg
+    cfgp = os.path.join(REPO, "proxy/rootfs/etc/haproxy/haproxy.cfg")
+    try:
+        section, nans, unmarked = "", 0, []
+        for ln, line in enumerate(open(cfgp), 1):
+            words = line.split("#")[0].split() if '"' not in line else line.split()
+            if not words:
+                continue
+            if words[0] in ("global", "defaults", "frontend", "backend", "listen"):
+                section = " ".join(words[:2])
+                continue
+            if section not in ("frontend http-in", "frontend http-async-in"):
+                continue
+            gen = (words[:2] == ["http-request", "deny"] or words[0] == "http-error") and ("lf-string" in words or "string" in words)
+            if gen:
+                nans += 1
+                if not any(w == "hdr" and i + 1 < len(words) and words[i + 1].lower() == "x-lunar-error" for i, w in enumerate(words)):
+                    unmarked.append(f"haproxy.cfg:{ln}")
+        check(nans >= 6 and not unmarked, "R4", "haproxy.cfg/gateway-generated-answers-carry-x-lunar-error", "proxy/rootfs/etc/haproxy/haproxy.cfg",
+              f"each of the {nans} answers with a body that the gateway generates itself has `hdr x-lunar-error <n>` (not so: {unmarked})")
+    except OSError as e:
+        undec("R4", "haproxy.cfg", "proxy/rootfs/etc/haproxy/haproxy.cfg", f"cannot read: {e}")
+    # a URL without a host is the application's problem, not a gateway failure
+    htree2, hpath2 = mods["helpers"]
+    gm = find_func(htree2, "generate_modified_headers")
+    if gm is None:
+        undec("R4", "helpers/generate_modified_headers", rel(hpath2), "function not found")
+    else:
+        bad = [src(x.exc)[:50] for x in ast.walk(gm) if isinstance(x, ast.Raise) and x.exc is not None and "ProxyErrorException" in src(x.exc)]
+        nr = len([x for x in ast.walk(gm) if isinstance(x, ast.Raise)])
+        check(not bad and nr >= 1, "R4", "helpers/generate_modified_headers/never-raises-the-gateway-error", loc(hpath2, gm),
+              f"a host-less URL raises a plain exception ({nr} raise statements), never ProxyErrorException: the application's mistake must not open the circuit ({bad})")
     # values dropped from the allow list are collected per occurrence (list.remove removes one occurrence)
     ttree2, tpath2 = mods["traffic_filter"]
     cls2 = find_class(ttree2, "TrafficFilter")
